@@ -1124,6 +1124,9 @@ func (in *inliner) expand(call *ast.CallExpr, fn *types.Func, recvExpr ast.Expr,
 		}
 		sel := ast.Unparen(call.Fun).(*ast.SelectorExpr)
 		if s, ok := in.info.Selections[in.rootSel(sel)]; ok {
+			if s.Kind() != types.MethodVal {
+				return in.skip("method expression")
+			}
 			if len(s.Index()) != 1 {
 				return in.skip("promoted method")
 			}
@@ -1305,14 +1308,37 @@ func (in *inliner) expand(call *ast.CallExpr, fn *types.Func, recvExpr ast.Expr,
 	scope := in.pkg.Types.Scope().Innermost(in.sitePos)
 	var declLo, declHi = decl.Pos(), decl.End()
 	calleeFile := in.declFile[fn]
+	// the symbolic variable of a type switch (`switch x := v.(type)`) has no object at its declaration and one implicit
+	// object per clause, all positioned at the declaration: rename them together
+	guardName := map[token.Pos]string{}
+	ast.Inspect(decl.Body, func(n ast.Node) bool {
+		if ts, ok := n.(*ast.TypeSwitchStmt); ok {
+			if as, ok := ts.Assign.(*ast.AssignStmt); ok && as.Tok == token.DEFINE && len(as.Lhs) == 1 {
+				if id, ok := as.Lhs[0].(*ast.Ident); ok && id.Name != "_" {
+					guardName[id.Pos()] = id.Name + suffix
+				}
+			}
+		}
+		return true
+	})
 	mapIdent := func(old *ast.Ident, neu *ast.Ident) {
 		in.orig[neu] = old
 		if old.Name == "_" {
 			return
 		}
+		if gn, ok := guardName[in.rootIdent(old).Pos()]; ok {
+			neu.Name = gn
+			return
+		}
 		o := in.objOf(old)
 		if o == nil {
 			return
+		}
+		if gn, ok := guardName[o.Pos()]; ok {
+			if _, isVar := o.(*types.Var); isVar {
+				neu.Name = gn
+				return
+			}
 		}
 		switch ob := o.(type) {
 		case *types.PkgName:
